@@ -299,6 +299,54 @@ func c08Ephemeral(c *c08Case, dir string) {
 	if !gone {
 		c.failf("ephemeral %s/%s still exists 10s after its last consumer left", topic, ch)
 	}
+	// several consumers leaving AT THE SAME MOMENT: whoever is last, somebody is -- the channel goes all the same
+	rounds := 40
+	for round := 0; round < rounds && len(c.Fails) == 0; round++ {
+		rch := fmt.Sprintf("r%d#ephemeral", round)
+		k := 2 + round%3
+		var conns []*Conn
+		for i := 0; i < k; i++ {
+			cx, err := dial(nd.TCP, fmt.Sprintf("e%d_%d", round, i))
+			if err != nil {
+				c.Incon = err.Error()
+				return
+			}
+			cx.identify(nil)
+			if err := cx.sub(topic, rch); err != nil {
+				c.Incon = err.Error()
+				return
+			}
+			conns = append(conns, cx)
+		}
+		if cs, _ := chanStat(nd, topic, rch); cs == nil {
+			c.Incon = "ephemeral channel not in /stats while subscribed"
+			return
+		}
+		start := make(chan struct{})
+		var wg sync.WaitGroup
+		for _, cx := range conns {
+			wg.Add(1)
+			go func(cx *Conn) { defer wg.Done(); <-start; cx.close() }(cx)
+		}
+		close(start)
+		wg.Wait()
+		c.Ops += k
+		gone := false
+		deadline := time.Now().Add(10 * time.Second)
+		for time.Now().Before(deadline) {
+			if cs, _ := chanStat(nd, topic, rch); cs == nil {
+				gone = true
+				break
+			}
+			time.Sleep(5 * time.Millisecond)
+		}
+		if !gone {
+			c.failf("ephemeral channel %s/%s still exists 10s after its %d consumers left at the same moment", topic, rch, k)
+		}
+		if strings.HasSuffix(topic, "#ephemeral") {
+			break // the ephemeral topic went with its last channel: one round
+		}
+	}
 	time.Sleep(100 * time.Millisecond)
 	var disk []string
 	es, _ := os.ReadDir(dir)
